@@ -99,17 +99,6 @@ Theorem C11_serverhostile_resources_released_partial : forall s sid ss s',
 Proof. exact end_session_leaves. Qed.
 Print Assumptions C11_serverhostile_resources_released_partial.
 
-(* resources_released is FALSE of the unchanged code: ANNOUNCE, SETUP over UDP with client port 0,
-   RECORD: the firewall-opening write fails, the connection is closed with 400, the session stays in
-   Server.sessions in state RECORD with no armed timer: no event ends it. *)
-Theorem C11_serverhostile_resources_released_refuted :
-  exists evs s os ss,
-    run_events cfg_all srv0 evs = Some (s, os) /\
-    v_conns s = [] /\ v_sess s = [ss] /\ s_state ss = SRecord /\ s_timer ss = false /\
-    step cfg_all s (STimeout (s_id ss)) = Some (s, OIgnored).
-Proof. exact resources_released_refuted. Qed.
-Print Assumptions C11_serverhostile_resources_released_refuted.
-
 (* others_unaffected is FALSE of the unchanged code for peers that share an IP address: a session
    set up with the client ports of another recording session takes over its UDP registrations and
    deletes them when it leaves.  Events of the second list are all on connection 3 and never name
@@ -139,6 +128,15 @@ Example C11_example_play_tcp :
             = Some (s, [OIgnored; OResp 200 false (Some 2); OResp 200 false (Some 2); OIgnored; OClosed])
             /\ v_conns s = [] /\ v_sess s = [] /\ v_readers s = [] /\ v_active s = [].
 Proof. eexists. vm_compute. repeat split; reflexivity. Qed.
+
+(* regression for fix ba05e77 (RECORD whose medias cannot be started): 400 + close, nothing is left *)
+Example C11_example_record_start_failure_released :
+  exists s os,
+    run_events cfg_all srv0 [SNew 1 false; SConn 1 (EReq w_announce); SConn 1 (EReq (w_setup_rec 0 1));
+                             SConn 1 (EReq (w_record false))] = Some (s, os) /\
+    os = [OIgnored; OResp 200 false None; OResp 200 false (Some 2); OResp 400 true None] /\
+    v_conns s = [] /\ v_sess s = [] /\ v_rtp s = [] /\ v_rtcp s = [].
+Proof. exact record_start_failure_released. Qed.
 
 (* a SETUP whose only transport is UDP on a server without UDP listeners: 461, connection kept *)
 Example C11_example_unsupported_transport :
